@@ -179,9 +179,10 @@ theorem reference_is_stricter_witness :
 /-! ## tables built from arbitrary frequency vectors -/
 
 /-- The full statement for `Huffman::from_frequencies`: every vector of 256 `u32` frequencies yields a
-table to which all of the above applies.  **Not provable**: `from_frequencies` panics when the
-Huffman tree is deeper than 24 (open finding D16, e.g. all-zero frequencies — model and
-implementation both `panic` on the replay in `corpus/huffman/finding-d16.txt`; `C07_full_witness`). -/
+table (to which all of the above then applies, see `fromFrequencies_tables_partial`).  **Not
+provable**: `from_frequencies` panics when the Huffman tree is deeper than 24 (open finding D16,
+e.g. all-zero frequencies — model and implementation both `panic` on the replay in
+`corpus/huffman/finding-d16.txt`; `C07_full_witness`). -/
 def C07_full : Prop :=
   ∀ f : List Nat, f.length = 256 → (∀ x ∈ f, x < 2 ^ 32) →
     ∃ t, fromFrequencies f = .ok t ∧ WellFormed t ∧ LutOk t
@@ -207,40 +208,38 @@ theorem C07_full_witness : ¬ C07_full := by
 
 /-- **Every table `Huffman::from_frequencies` returns is well-formed** (whenever it returns, i.e. does
 not hit D16): the merge loop builds a forest whose inner nodes have two different children with
-smaller indices and in which every node but the root is somebody's child; the iterative traversal
-(explicit stack, direction bits) is the recursive one and writes into every symbol's entry the code of
-a path from the root to that symbol, of length 1..24. -/
+smaller indices, in which every node but the root is the child of exactly one inner node; the
+iterative traversal (explicit stack, direction bits) is the recursive one and writes into every
+symbol's entry the code of the path from the root to that symbol, of length 1..24; paths are unique,
+so the reference's lookup table is consistent with the stored lengths. -/
 theorem fromFrequencies_wellFormed (f : List Nat) (t : Table) (hok : fromFrequencies f = .ok t) :
-    WellFormed t := Tw.Huffman.fromFrequencies_wellFormed f t hok
+    WellFormed t ∧ LutOk t :=
+  ⟨Tw.Huffman.fromFrequencies_wellFormed f t hok, Tw.Huffman.fromFrequencies_lutOk f t hok⟩
 
-/-- Hence, for **every** frequency vector on which `from_frequencies` returns, with no further
-hypothesis: the codec with that table is lossless in both output forms, the streaming (Rust-form)
-compressor computes the spec form, the decoder is total, bounded and capacity-exact, and
-`compress_bug` is byte-identical to the reference's `Compress` run on the same table. -/
-theorem fromFrequencies_tables (f : List Nat) (t : Table) (hok : fromFrequencies f = .ok t) :
+/-- Hence the whole property for tables built from arbitrary frequency vectors, under exactly the
+hypothesis that excludes D16 (`from_frequencies` returns): lossless in both output forms, the
+streaming (Rust-form) compressor computes the spec form, the decoder is total, bounded and
+capacity-exact, `compress_bug` is byte-identical to the reference's `Compress`, and whatever the
+reference's `Decompress` decodes this decoder decodes to the same bytes. -/
+theorem fromFrequencies_tables_partial (f : List Nat) (t : Table) (hok : fromFrequencies f = .ok t) :
     (∀ bug xs cap, xs.length ≤ cap → decompress t (compress t bug xs) cap = .ok xs)
     ∧ (∀ bug xs cap, compressStreamInto t bug xs cap =
         if (compress t bug xs).length ≤ cap then .ok (compress t bug xs) else .capacity)
     ∧ (∀ input cap, decompress t input cap ≠ .diverge)
     ∧ (∀ input cap out, decompress t input cap = .ok out → out.length ≤ cap)
     ∧ (∀ input cap' cap, cap' ≤ cap → decompress t input cap' = (decompress t input cap).trunc cap')
-    ∧ (∀ xs, compress t true xs = refCompress t xs) :=
+    ∧ (∀ xs, compress t true xs = refCompress t xs)
+    ∧ (∀ fuel input cap out, refDecompress t fuel input cap = .ok out →
+        decompress t input cap = .ok out) :=
   have h := Tw.Huffman.fromFrequencies_wellFormed f t hok
+  have hl := Tw.Huffman.fromFrequencies_lutOk f t hok
   ⟨fun bug xs cap hc => decompress_compress t h bug xs cap hc,
    fun bug xs cap => compressStreamInto_eq t h bug xs cap,
    fun input cap => decompress_terminates t h input cap,
    fun input cap out ho => decompress_bound t input cap out ho,
    fun input cap' cap hc => decompress_trunc t h input cap' cap hc,
-   fun xs => (refCompress_eq_compress_bug t h xs).symm⟩
-
-/-- The one clause that still carries a hypothesis for tables from frequency vectors: agreement
-with the reference *decoder* needs `LutOk t` (decided by the driver for every sampled vector;
-kernel-checked for the built-in table). -/
-theorem fromFrequencies_reference_decoder_partial (f : List Nat) (t : Table)
-    (hok : fromFrequencies f = .ok t) (hl : LutOk t) (fuel : Nat) (input : List UInt8) (cap : Nat)
-    (out : List UInt8) (hr : refDecompress t fuel input cap = .ok out) :
-    decompress t input cap = .ok out :=
-  refDecompress_agrees t (Tw.Huffman.fromFrequencies_wellFormed f t hok) hl fuel input cap out hr
+   fun xs => (refCompress_eq_compress_bug t h xs).symm,
+   fun fuel input cap out hr => refDecompress_agrees t h hl fuel input cap out hr⟩
 
 /-! ## non-vacuity -/
 
